@@ -107,22 +107,118 @@ theorem isHead_of_no_event {F : List Rng} {t t' : Nat} {H : Rng}
 /-- weak monotonicity: a range inside another one is at least as long -/
 def RngMono (F : List Rng) : Prop := ∀ R ∈ F, ∀ R' ∈ F, R.sub R' → R'.len ≤ R.len
 
+/-- an exception to monotonicity: a range that lies inside a strictly longer one (in the concrete
+family: the implicit IPv4 null range — mask length 0 — inside a declared IPv6 block) -/
+def IsExc (F : List Rng) (E : Rng) : Prop := ∃ R' ∈ F, E.sub R' ∧ E.len < R'.len
+
+/-- monotonicity up to harmless exceptions: an exception has mask length 0, no other range that
+contains it ends where it ends, the ranges that start where it ends have positive mask length, and
+exceptions are not nested -/
+structure RngMonoW (F : List Rng) : Prop where
+  len0 : ∀ E ∈ F, IsExc F E → E.len = 0
+  top : ∀ E ∈ F, IsExc F E → ∀ X ∈ F, E.sub X → X.hi = E.hi → X = E
+  next : ∀ E ∈ F, IsExc F E → ∀ X ∈ F, X.lo = E.hi → 0 < X.len
+  uniq : ∀ E ∈ F, IsExc F E → ∀ E' ∈ F, IsExc F E' → E.sub E' → E = E'
+
+theorem RngMono.toW {F : List Rng} (h : RngMono F) : RngMonoW F := by
+  have no : ∀ E ∈ F, ¬ IsExc F E := by
+    rintro E hE ⟨R', hR', hsub, hlt⟩
+    have := h E hE R' hR' hsub
+    omega
+  exact ⟨fun E hE he => absurd he (no E hE), fun E hE he => absurd he (no E hE),
+    fun E hE he => absurd he (no E hE), fun E hE he => absurd he (no E hE)⟩
+
+theorem mono_or {F : List Rng} {R R' : Rng} (hR' : R' ∈ F) (hsub : R.sub R') :
+    R'.len ≤ R.len ∨ IsExc F R := by
+  by_cases h : R'.len ≤ R.len
+  · exact Or.inl h
+  · exact Or.inr ⟨R', hR', hsub, by omega⟩
+
 theorem cut_zero_inv (F : List Rng) : Inv F 0 [] := by
   refine ⟨fun R => ⟨fun h => (by cases h), fun h => ?_⟩, List.Pairwise.nil⟩
   have := h.2.1
   unfold srank at this; omega
 
-theorem outPt_ip_le {F : List Rng} (hF : RngWF F) {g : GEv} (hg : g.r ∈ F) :
+/-- what the sweep guarantees about an emitted point: it carries the innermost range open just after
+its event; the event is a start or stop event of a range of `F` (a start emits its own range), or a
+marker -/
+def OutOK (F : List Rng) (M : List GEv) (gh : GEv × Rng) : Prop :=
+  IsHead F (grank gh.1) gh.2 ∧
+    ((gh.1.r ∈ F ∧ (gh.1.kind = .start → gh.2 = gh.1.r) ∧ (gh.1.kind = .stop → gh.1.r.hi ≠ TOP)) ∨
+      gh.1 ∈ M)
+
+/-- the three kinds of emitted points -/
+theorem OutOK.cases {F : List Rng} {M : List GEv} (hM : MarkWF F M) {g : GEv} {H : Rng}
+    (h : OutOK F M (g, H)) :
+    (∃ R, g = ⟨R, .stop⟩ ∧ R ∈ F ∧ R.hi ≠ TOP) ∨ (g = ⟨H, .start⟩ ∧ H ∈ F) ∨
+    (∃ U, g = ⟨U, .start⟩ ∧ g ∈ M ∧ U.lo = afterIPv4 ∧ U.len = 0) := by
+  obtain ⟨_, ⟨hRF, hst, hsp⟩ | hm⟩ := h
+  · obtain ⟨R, k⟩ := g
+    cases k with
+    | start =>
+      have : H = R := hst rfl
+      subst this
+      exact Or.inr (Or.inl ⟨rfl, hRF⟩)
+    | stop => exact Or.inl ⟨R, rfl, hRF, hsp rfl⟩
+  · have h1 := hM.kind g hm
+    have h2 := hM.lo g hm
+    have h3 := hM.len g hm
+    obtain ⟨U, k⟩ := g
+    simp only at h1 h2 h3
+    subst h1
+    exact Or.inr (Or.inr ⟨U, rfl, hm, h2, h3⟩)
+
+theorem OutOK.len_le {F : List Rng} {M : List GEv} (hF : RngWF F) (hM : MarkWF F M) {gh : GEv × Rng}
+    (h : OutOK F M gh) : gh.1.r.len ≤ 128 := by
+  obtain ⟨_, ⟨hRF, _, _⟩ | hm⟩ := h
+  · exact (hF.bounds _ hRF).2.2
+  · rw [hM.len _ hm]; exact Nat.zero_le _
+
+theorem outPt_ip_le {g : GEv} (hg : g.r.len ≤ 128) :
     g.pt.ip * 1024 ≤ grank g ∧ grank g < g.pt.ip * 1024 + 1024 := by
   obtain ⟨R, k⟩ := g
-  have b3 : R.len ≤ 128 := (hF.bounds R hg).2.2
-  cases k <;> simp only [grank, rank, GEv.pt] <;> omega
+  cases k <;> simp only [grank, rank, GEv.pt] <;> simp only at hg <;> omega
+
+/-- comparing ranks compares addresses (the in-address part of a rank is below 1024); stated
+separately because `omega` does not cope well with these multiples of 1024 -/
+theorem rank_lt_of_addr {a b x y : Nat} (h : a < b) (hx : x < 1024 + y) :
+    a * 1024 + x < b * 1024 + y := by
+  have h5 : (a + 1) * 1024 ≤ b * 1024 := Nat.mul_le_mul_right 1024 h
+  rw [Nat.add_mul, Nat.one_mul] at h5
+  calc a * 1024 + x < a * 1024 + (1024 + y) := Nat.add_lt_add_left hx _
+    _ = a * 1024 + 1024 + y := (Nat.add_assoc _ _ _).symm
+    _ ≤ b * 1024 + y := Nat.add_le_add_right h5 _
+
+theorem ip_le_of_rank {a b r r' : Nat} (h1 : a * 1024 ≤ r) (h : r ≤ r') (h2 : r' < b * 1024 + 1024) :
+    a ≤ b := by
+  have : a * 1024 < (b + 1) * 1024 := by
+    rw [Nat.add_mul, Nat.one_mul]
+    exact Nat.lt_of_le_of_lt (Nat.le_trans h1 h) h2
+  exact Nat.le_of_lt_succ (Nat.lt_of_mul_lt_mul_right this)
+
+theorem rank_start_lt {a b l y : Nat} (h : a < b) (hl : l ≤ 128) :
+    a * 1024 + (512 + l) < b * 1024 + y := rank_lt_of_addr h (by omega)
+
+theorem addr_lt_of_rank' {a b x y : Nat} (h : a * 1024 + x < b * 1024 + y) (hy : y ≤ x) : a < b := by
+  have h1 : a * 1024 + x < b * 1024 + x := Nat.lt_of_lt_of_le h (Nat.add_le_add_left hy _)
+  exact Nat.lt_of_mul_lt_mul_right (Nat.lt_of_add_lt_add_right h1)
+
+theorem addr_lt_of_rank {a b x y : Nat} (h : a * 1024 + x < b * 1024 + y) (hy : y < 1024 + x) :
+    a ≤ b := by
+  refine Nat.le_of_not_lt fun hlt => ?_
+  exact Nat.lt_asymm h (rank_lt_of_addr hlt hy)
+
+/-- a range that started before address `ip` and is not stopped by an event at `ip` or later is open at
+every cut at address `ip` that precedes that event -/
+theorem isOpen_of_ranks {F : List Rng} {X : Rng} (hXF : X ∈ F) {t : Nat} (hs : srank X ≤ t)
+    (he : X.hi = TOP ∨ t < erank X) : IsOpen F t X := ⟨hXF, hs, he⟩
 
 /-- the points emitted at one address form a valley: descending while stops pop outwards, then
 ascending with the starts -/
-theorem valley_out {F : List Rng} (hF : RngWF F) (hM : RngMono F) {GO : List (GEv × Rng)}
+theorem valley_out {F : List Rng} (hF : RngWF F) (hW : RngMonoW F) {M : List GEv} (hM : MarkWF F M)
+    {GO : List (GEv × Rng)}
     (hsorted : GO.Pairwise fun x y => grank x.1 < grank y.1)
-    (hmem : ∀ gh ∈ GO, gh.1.r ∈ F ∧ IsHead F (grank gh.1) gh.2 ∧ (gh.1.kind = .start → gh.2 = gh.1.r)) :
+    (hmem : ∀ gh ∈ GO, OutOK F M gh) :
     Valley (GO.map outPt) := by
   intro a b c hsub hab hbc hrise
   obtain ⟨l', hl', hmap⟩ := List.sublist_map_iff.1 hsub
@@ -132,9 +228,10 @@ theorem valley_out {F : List Rng} (hF : RngWF F) (hM : RngMono F) {GO : List (GE
   simp only [List.map_cons, List.map_nil, List.cons.injEq, and_true] at hmap
   obtain ⟨rfl, rfl, rfl⟩ := hmap
   have hpw := List.Pairwise.sublist hl' hsorted
-  simp only [List.pairwise_cons, List.mem_cons, List.not_mem_nil, or_false, forall_eq_or_imp,
-    forall_eq, List.Pairwise.nil, and_true] at hpw
-  obtain ⟨⟨hab', hac'⟩, hbc'⟩ := hpw
+  have hab' := (List.pairwise_cons.1 hpw).1 gb (by simp)
+  have hac' := (List.pairwise_cons.1 hpw).1 gc (by simp)
+  have hbc' := (List.pairwise_cons.1 (List.pairwise_cons.1 hpw).2).1 gc (by simp)
+  clear hpw
   have hma := hmem ga (hl'.subset (by simp))
   have hmb := hmem gb (hl'.subset (by simp))
   have hmc := hmem gc (hl'.subset (by simp))
@@ -142,73 +239,170 @@ theorem valley_out {F : List Rng} (hF : RngWF F) (hM : RngMono F) {GO : List (GE
   obtain ⟨gb1, Hb⟩ := gb
   obtain ⟨gc1, Hc⟩ := gc
   simp only [outPt] at hab hbc hrise ⊢
-  simp only at hma hmb hmc hab' hbc' hac'
-  obtain ⟨ba1, ba2, ba3⟩ := hF.bounds ga1.r hma.1
-  obtain ⟨bb1, bb2, bb3⟩ := hF.bounds gb1.r hmb.1
-  obtain ⟨bc1, bc2, bc3⟩ := hF.bounds gc1.r hmc.1
-  -- b must be a start event
-  have hbstart : gb1.kind = .start := by
-    cases hk : gb1.kind with
-    | start => rfl
-    | stop =>
+  simp only at hab' hbc' hac'
+  show Ha.len < Hc.len
+  have hrise' : Ha.len < Hb.len := hrise
+  have hia := outPt_ip_le (hma.len_le hF hM)
+  simp only at hia
+  have hdA : IsHead F (grank ga1) Ha := hma.1
+  have hdB : IsHead F (grank gb1) Hb := hmb.1
+  have hdC : IsHead F (grank gc1) Hc := hmc.1
+  have hHaF : Ha ∈ F := hdA.1.1
+  have hHbF : Hb ∈ F := hdB.1.1
+  have hHcF : Hc ∈ F := hdC.1.1
+  obtain ⟨ba1, ba2, ba3⟩ := hF.bounds Ha hHaF
+  obtain ⟨bb1, bb2, bb3⟩ := hF.bounds Hb hHbF
+  obtain ⟨bc1, bc2, bc3⟩ := hF.bounds Hc hHcF
+  rcases hmb.cases hM with ⟨Rb, rfl, hRbF, hRbtop⟩ | ⟨rfl, _⟩ | ⟨Ub, rfl, hbM, hUblo, hUblen⟩
+  · -- b is a stop event
+    obtain ⟨rb1, rb2, rb3⟩ := hF.bounds Rb hRbF
+    have eb : grank ⟨Rb, Kind.stop⟩ = Rb.hi * 1024 + (255 - Rb.len) := rfl
+    have hipa : ga1.pt.ip = Rb.hi := hab
+    have hipc : Rb.hi = gc1.pt.ip := hbc
+    rw [hipa] at hia
+    rw [eb] at hab' hbc'
+    -- `Hb` and `Rb` are open at a's cut, so `Ha` lies inside them
+    have hopenHb : IsOpen F (grank ga1) Hb := by
+      obtain ⟨h1, h2, h3⟩ := hdB.1
+      rw [eb] at h2 h3
+      refine ⟨h1, ?_, ?_⟩
+      · unfold srank at h2 ⊢; omega
+      · rcases h3 with h3 | h3
+        · exact Or.inl h3
+        · exact Or.inr (by omega)
+    have hsubHb := hdA.2 Hb hopenHb
+    rcases mono_or hHbF (show Ha.sub Hb from ⟨hsubHb.1, hsubHb.2⟩) with hle | hexc
+    · omega
+    -- `Ha` is an exception: `b` is its own stop event
+    have hopenAt : ∀ X ∈ F, X.hi = Rb.hi → grank ga1 < erank X → IsOpen F (grank ga1) X := by
+      intro X hXF hXhi hlt
+      obtain ⟨x1, x2, x3⟩ := hF.bounds X hXF
+      refine ⟨hXF, ?_, Or.inr hlt⟩
+      unfold srank; omega
+    have hHahi : Ha.hi = Rb.hi := by
+      have h1 := (hdA.2 Rb (hopenAt Rb hRbF rfl (by unfold erank; omega))).2
+      have h2 : Ha.hi = TOP ∨ grank ga1 < erank Ha := hdA.1.2.2
+      unfold erank at h2
+      rcases h2 with h2 | h2 <;> omega
+    have hRbHa : Rb = Ha :=
+      hW.top Ha hHaF hexc Rb hRbF (hdA.2 Rb (hopenAt Rb hRbF rfl (by unfold erank; omega)))
+        hHahi.symm
+    subst hRbHa
+    have hlen0 := hW.len0 Rb hHaF hexc
+    have hHbhi : Rb.hi < Hb.hi := by
+      have : Hb.hi ≠ Rb.hi := fun e => by
+        have := hW.top Rb hHaF hexc Hb hHbF ⟨hsubHb.1, hsubHb.2⟩ e
+        rw [this] at hrise'; omega
+      have := hsubHb.2
+      omega
+    rcases hmc.cases hM with ⟨Rc, rfl, hRcF, hRctop⟩ | ⟨rfl, _⟩ | ⟨Uc, rfl, hcM, hUclo, hUclen⟩
+    · -- c a stop at the same address: it would be the stop of `Ha` again
       exfalso
-      -- then a is a stop too and Hb is open at a's cut, so Ha ⊆ Hb
-      obtain ⟨Ra, ka⟩ := ga1
-      obtain ⟨Rb, kb⟩ := gb1
-      simp only at hk; subst hk
-      simp only [GEv.pt] at hab
-      have hHb := hmb.2.1.1
-      have hopen : IsOpen F (grank ⟨Ra, ka⟩) Hb := by
-        obtain ⟨h1, h2, h3⟩ := hHb
-        obtain ⟨bh1, bh2, bh3⟩ := hF.bounds Hb h1
-        have hb' : grank ⟨Rb, Kind.stop⟩ = Rb.hi * 1024 + (255 - Rb.len) := rfl
-        have hiple := outPt_ip_le hF hma.1
-        have hipa : (GEv.mk Ra ka).pt.ip = Rb.hi := hab
-        rw [hipa] at hiple
-        rw [hb'] at h2 h3 hab'
-        refine ⟨h1, ?_, ?_⟩
-        · unfold srank at h2 ⊢; omega
-        · rcases h3 with h3 | h3
+      obtain ⟨rc1, rc2, rc3⟩ := hF.bounds Rc hRcF
+      have ec : grank ⟨Rc, Kind.stop⟩ = Rc.hi * 1024 + (255 - Rc.len) := rfl
+      have hipc' : Rb.hi = Rc.hi := hipc
+      rw [ec] at hbc' hac'
+      have hopenRc := hopenAt Rc hRcF hipc'.symm (by unfold erank; omega)
+      have := hW.top Rb hHaF hexc Rc hRcF (hdA.2 Rc hopenRc) hipc'.symm
+      rw [this] at hbc'; omega
+    · -- c a start where the exception ends
+      have hipc' : Rb.hi = Hc.lo := hipc
+      have := hW.next Rb hHaF hexc Hc hHcF hipc'.symm
+      omega
+    · -- c a marker: `Hb` is still open there
+      have ec := hM.grank hcM
+      have hipc' : Rb.hi = Uc.lo := hipc
+      rw [ec] at hbc' hac'
+      have hopenc : IsOpen F (grank ⟨Uc, Kind.start⟩) Hb := by
+        obtain ⟨h1, h2, h3⟩ := hdB.1
+        rw [eb] at h2
+        rw [ec]
+        refine ⟨h1, Nat.le_of_lt (Nat.lt_of_le_of_lt h2 hbc'), ?_⟩
+        by_cases hTop : Hb.hi = TOP
+        · exact Or.inl hTop
+        · right; unfold erank; rw [← hUclo, ← hipc']
+          exact rank_lt_of_addr hHbhi (Nat.lt_of_lt_of_le (by decide : 512 < 1024) (Nat.le_add_right _ _))
+      have hsubc := hdC.2 Hb hopenc
+      rcases mono_or hHbF (show Hc.sub Hb from ⟨hsubc.1, hsubc.2⟩) with hle | hexc'
+      · omega
+      · exfalso
+        -- `Hc` is open at a's cut as well, so the exception `Ha` lies inside the exception `Hc`
+        obtain ⟨_, h2, h3⟩ := hdC.1
+        rw [ec] at h2 h3
+        have hclo : Hc.lo < Rb.hi := by
+          refine Nat.lt_of_le_of_ne ?_ fun e => ?_
+          · unfold srank at h2; rw [← hUclo, ← hipc'] at h2; omega
+          · have hl : Hc.len = 0 := by
+              unfold srank at h2; rw [← hUclo, ← hipc', e] at h2; omega
+            exact hM.alone _ hcM Hc hHcF ⟨by rw [e, hipc', hUclo], hl⟩
+        have hopena : IsOpen F (grank ga1) Hc := by
+          refine ⟨hHcF, by unfold srank; omega, ?_⟩
+          rcases h3 with h3 | h3
           · exact Or.inl h3
           · exact Or.inr (by omega)
-      have hsub := hma.2.1.2 Hb hopen
-      have := hM Ha hma.2.1.1.1 Hb hHb.1 ⟨hsub.1, hsub.2⟩
-      omega
-  -- hence c is a later start at the same address: longer than b
-  have hHb : Hb = gb1.r := hmb.2.2 hbstart
-  obtain ⟨Rb, kb⟩ := gb1
-  obtain ⟨Rc, kc⟩ := gc1
-  simp only at hbstart; subst hbstart
-  simp only at hHb; subst hHb
-  simp only [GEv.pt] at hbc
-  cases kc with
-  | stop =>
-    exfalso
-    have e1 : grank ⟨Hb, Kind.start⟩ = Hb.lo * 1024 + (512 + Hb.len) := rfl
-    have e2 : grank ⟨Rc, Kind.stop⟩ = Rc.hi * 1024 + (255 - Rc.len) := rfl
-    have hbc2 : Hb.lo = Rc.hi := hbc
-    rw [e1, e2] at hbc'
-    omega
-  | start =>
-    have hHc : Hc = Rc := hmc.2.2 rfl
-    subst hHc
-    have e1 : grank ⟨Hb, Kind.start⟩ = Hb.lo * 1024 + (512 + Hb.len) := rfl
-    have e2 : grank ⟨Hc, Kind.start⟩ = Hc.lo * 1024 + (512 + Hc.len) := rfl
-    have hbc2 : Hb.lo = Hc.lo := hbc
-    rw [e1, e2] at hbc'
-    show Ha.len < Hc.len
-    have hrise' : Ha.len < Hb.len := hrise
-    omega
+        have := hW.uniq Rb hHaF hexc Hc hHcF hexc' (hdA.2 Hc hopena)
+        rw [← this] at h3
+        unfold erank at h3
+        rw [← hUclo, ← hipc'] at h3
+        rcases h3 with h3 | h3 <;> omega
+  · -- b is the start event of `Hb`
+    have eb : grank ⟨Hb, Kind.start⟩ = Hb.lo * 1024 + (512 + Hb.len) := rfl
+    rw [eb] at hbc'
+    have hipc : Hb.lo = gc1.pt.ip := hbc
+    rcases hmc.cases hM with ⟨Rc, rfl, hRcF, hRctop⟩ | ⟨rfl, _⟩ | ⟨Uc, rfl, hcM, hUclo, hUclen⟩
+    · exfalso
+      have ec : grank ⟨Rc, Kind.stop⟩ = Rc.hi * 1024 + (255 - Rc.len) := rfl
+      have : Hb.lo = Rc.hi := hipc
+      rw [ec] at hbc'; omega
+    · have ec : grank ⟨Hc, Kind.start⟩ = Hc.lo * 1024 + (512 + Hc.len) := rfl
+      have : Hb.lo = Hc.lo := hipc
+      rw [ec] at hbc'; omega
+    · exfalso
+      have ec := hM.grank hcM
+      have : Hb.lo = Uc.lo := hipc
+      rw [ec, ← hUclo] at hbc'; omega
+  · -- b is a marker
+    have eb := hM.grank hbM
+    rw [eb] at hbc'
+    have hipc : Ub.lo = gc1.pt.ip := hbc
+    rcases hmc.cases hM with ⟨Rc, rfl, hRcF, hRctop⟩ | ⟨rfl, _⟩ | ⟨Uc, rfl, hcM, hUclo, hUclen⟩
+    · exfalso
+      have ec : grank ⟨Rc, Kind.stop⟩ = Rc.hi * 1024 + (255 - Rc.len) := rfl
+      have : Ub.lo = Rc.hi := hipc
+      rw [ec, ← hUblo] at hbc'; omega
+    · -- c a start at `afterIPv4`: it lies inside the range that continues there
+      have ec : grank ⟨Hc, Kind.start⟩ = Hc.lo * 1024 + (512 + Hc.len) := rfl
+      have hlo : Ub.lo = Hc.lo := hipc
+      have hopenc : IsOpen F (grank ⟨Hc, Kind.start⟩) Hb := by
+        obtain ⟨h1, h2, h3⟩ := hdB.1
+        rw [eb] at h2 h3
+        rw [ec] at hbc' ⊢
+        refine ⟨h1, Nat.le_of_lt (Nat.lt_of_le_of_lt h2 hbc'), ?_⟩
+        rcases h3 with h3 | h3
+        · exact Or.inl h3
+        · right
+          unfold erank at h3 ⊢
+          rw [← hUblo, hlo] at h3
+          have h4 : Hc.lo < Hb.hi := addr_lt_of_rank' h3 (Nat.le_trans (Nat.sub_le _ _) (by decide))
+          exact rank_start_lt h4 bc3
+      have hsubc := hdC.2 Hb hopenc
+      rcases mono_or hHbF (show Hc.sub Hb from ⟨hsubc.1, hsubc.2⟩) with hle | hexc'
+      · omega
+      · exfalso
+        exact hM.alone _ hbM Hc hHcF ⟨by rw [← hlo, hUblo], hW.len0 Hc hHcF hexc'⟩
+    · exfalso
+      have ec := hM.grank hcM
+      rw [ec] at hbc'; omega
 
 
 /-- the sweep output, annotated: for every event the range on top of the stack afterwards -/
-theorem sweep_out {F : List Rng} (hF : RngWF F) {GE : List GEv} (hcut : Cut F 0 GE) :
+theorem sweep_out {F : List Rng} (hF : RngWF F) (hN : NoResume F) {M : List GEv} (hM : MarkWF F M)
+    {GE : List GEv} (hcut : Cut F M 0 GE) :
     ∃ GO : List (GEv × Rng), GO.map Prod.fst = GE ∧
       sweep (GE.map GEv.pt) [] = some (GO.map outPt) ∧
       (GO.Pairwise fun x y => grank x.1 < grank y.1) ∧
-      ∀ gh ∈ GO, gh.1.r ∈ F ∧ IsHead F (grank gh.1) gh.2 ∧ (gh.1.kind = .start → gh.2 = gh.1.r) ∧
-        (gh.1.kind = .stop → gh.1.r.hi ≠ TOP) := by
-  obtain ⟨hs, hlen, hsw, hall⟩ := sweep_ghost hF GE 0 [] hcut (cut_zero_inv F)
+      ∀ gh ∈ GO, OutOK F M gh := by
+  obtain ⟨hs, hlen, hsw, hall⟩ := sweep_ghost hF hN hM GE 0 [] hcut (cut_zero_inv F)
   have hfst : (GE.zip hs).map Prod.fst = GE := List.map_fst_zip (by omega)
   refine ⟨GE.zip hs, hfst, hsw, ?_, ?_⟩
   · have := hcut.sorted
@@ -216,47 +410,51 @@ theorem sweep_out {F : List Rng} (hF : RngWF F) {GE : List GEv} (hcut : Cut F 0 
     exact this
   · intro gh hgh
     have hg : gh.1 ∈ GE := (List.of_mem_zip (a := gh.1) (b := gh.2) hgh).1
-    have := hcut.sound gh.1 hg
-    exact ⟨this.2.1, (hall gh hgh).1, (hall gh hgh).2, this.2.2⟩
+    refine ⟨(hall gh hgh).1, ?_⟩
+    rcases (hcut.sound gh.1 hg).2 with ⟨h1, h2⟩ | h
+    · exact Or.inl ⟨h1, (hall gh hgh).2 h1, h2⟩
+    · exact Or.inr h
 
 /-- facts about every emitted point -/
-theorem outPt_facts {F : List Rng} (hF : RngWF F) {gh : GEv × Rng}
-    (h : gh.1.r ∈ F ∧ IsHead F (grank gh.1) gh.2 ∧ (gh.1.kind = .start → gh.2 = gh.1.r) ∧
-      (gh.1.kind = .stop → gh.1.r.hi ≠ TOP)) :
+theorem outPt_facts {F : List Rng} (hF : RngWF F) {M : List GEv} (hM : MarkWF F M) {gh : GEv × Rng}
+    (h : OutOK F M gh) :
     (outPt gh).ip < TOP ∧ (outPt gh).maskLen ≤ 128 ∧ ((outPt gh).loc = none → (outPt gh).maskLen = 0) ∧
       ∃ R ∈ F, (outPt gh).loc = R.loc ∧ (outPt gh).maskLen = R.len := by
-  obtain ⟨⟨R, k⟩, H⟩ := gh
-  obtain ⟨h1, h2, _, h4⟩ := h
-  have hHF : H ∈ F := h2.1.1
-  obtain ⟨b1, b2, b3⟩ := hF.bounds R h1
+  obtain ⟨g, H⟩ := gh
+  have hHF : H ∈ F := h.1.1.1
   refine ⟨?_, (hF.bounds H hHF).2.2, hF.null_len H hHF, H, hHF, rfl, rfl⟩
-  cases k with
-  | start => simp only [outPt, GEv.pt]; omega
-  | stop =>
-    have := h4 rfl
-    simp only [outPt, GEv.pt]; simp only at this; omega
+  rcases h.cases hM with ⟨R, rfl, hRF, hRtop⟩ | ⟨rfl, hRF⟩ | ⟨U, rfl, _, hlo, _⟩
+  · obtain ⟨b1, b2, b3⟩ := hF.bounds R hRF
+    show R.hi < TOP
+    omega
+  · obtain ⟨b1, b2, b3⟩ := hF.bounds H hRF
+    show H.lo < TOP
+    omega
+  · show U.lo < TOP
+    rw [hlo]
+    exact Nat.pow_lt_pow_right (by decide) (by decide)
 
 /-- **rangepoint_keys_distinct**: the squashed table is strictly sorted by database key -/
-theorem table_sorted {F : List Rng} (hF : RngWF F) (hM : RngMono F) {GO : List (GEv × Rng)}
+theorem table_sorted {F : List Rng} (hF : RngWF F) (hW : RngMonoW F) {M : List GEv} (hM : MarkWF F M)
+    {GO : List (GEv × Rng)}
     (hsorted : GO.Pairwise fun x y => grank x.1 < grank y.1)
-    (hmem : ∀ gh ∈ GO, gh.1.r ∈ F ∧ IsHead F (grank gh.1) gh.2 ∧ (gh.1.kind = .start → gh.2 = gh.1.r) ∧
-      (gh.1.kind = .stop → gh.1.r.hi ≠ TOP)) :
+    (hmem : ∀ gh ∈ GO, OutOK F M gh) :
     (squash [] (GO.map outPt)).Pairwise fun u v => keyLt (pkey u) (pkey v) = true := by
   have hip : (GO.map outPt).Pairwise fun a b => a.ip ≤ b.ip := by
     rw [List.pairwise_map]
     refine List.Pairwise.imp_of_mem ?_ hsorted
     intro x y hx hy hlt
-    have h1 := outPt_ip_le hF (hmem x hx).1
-    have h2 := outPt_ip_le hF (hmem y hy).1
+    have h1 := outPt_ip_le ((hmem x hx).len_le hF hM)
+    have h2 := outPt_ip_le ((hmem y hy).len_le hF hM)
     show x.1.pt.ip ≤ y.1.pt.ip
-    omega
-  have hval := valley_out hF hM hsorted fun gh hgh => ⟨(hmem gh hgh).1, (hmem gh hgh).2.1, (hmem gh hgh).2.2.1⟩
+    exact ip_le_of_rank h1.1 (Nat.le_of_lt hlt) h2.2
+  have hval := valley_out hF hW hM hsorted hmem
   have hks := squash_keySorted _ hip hval
   have hfacts : ∀ p ∈ squash [] (GO.map outPt), (p.loc = none → p.maskLen = 0) ∧ p.maskLen < 256 := by
     intro p hp
     have hp' : p ∈ GO.map outPt := (squash_sublist _).subset hp
     obtain ⟨gh, hgh, rfl⟩ := List.mem_map.1 hp'
-    have := outPt_facts hF (hmem gh hgh)
+    have := outPt_facts hF hM (hmem gh hgh)
     exact ⟨this.2.2.1, by omega⟩
   refine List.Pairwise.imp_of_mem ?_ hks
   intro u v hu hv huv
@@ -265,37 +463,43 @@ theorem table_sorted {F : List Rng} (hF : RngWF F) (hM : RngMono F) {GO : List (
 
 
 /-- an event after the cut of the lookup key is at a later address, or a start at `a` longer than `req` -/
-theorem after_krank {F : List Rng} (hF : RngWF F) {gh : GEv × Rng} {a req : Nat} (hreq : req < 256)
-    (h : gh.1.r ∈ F ∧ IsHead F (grank gh.1) gh.2 ∧ (gh.1.kind = .start → gh.2 = gh.1.r) ∧
-      (gh.1.kind = .stop → gh.1.r.hi ≠ TOP))
-    (hk : krank a req < grank gh.1) :
+theorem after_krank {F : List Rng} (hF : RngWF F) {M : List GEv} (hM : MarkWF F M) {gh : GEv × Rng}
+    {a req : Nat} (hreq : req < 256) (h : OutOK F M gh) (hk : krank a req < grank gh.1) :
     a < (outPt gh).ip ∨ ((outPt gh).ip = a ∧ req < (outPt gh).maskLen) := by
-  obtain ⟨⟨R, k⟩, H⟩ := gh
-  obtain ⟨h1, _, h3, _⟩ := h
-  obtain ⟨b1, b2, b3⟩ := hF.bounds R h1
-  cases k with
-  | stop =>
+  obtain ⟨g, H⟩ := gh
+  rcases h.cases hM with ⟨R, rfl, hRF, hRtop⟩ | ⟨rfl, hRF⟩ | ⟨U, rfl, hm, hlo, hlen⟩
+  · obtain ⟨b1, b2, b3⟩ := hF.bounds R hRF
     have e : grank ⟨R, Kind.stop⟩ = R.hi * 1024 + (255 - R.len) := rfl
     rw [e] at hk
     unfold krank at hk
     left
     show a < R.hi
-    omega
-  | start =>
-    have e : grank ⟨R, Kind.start⟩ = R.lo * 1024 + (512 + R.len) := rfl
+    exact addr_lt_of_rank' hk (Nat.le_trans (Nat.sub_le _ _) (Nat.le_trans (by decide) (Nat.le_add_right _ _)))
+  · obtain ⟨b1, b2, b3⟩ := hF.bounds H hRF
+    have e : grank ⟨H, Kind.start⟩ = H.lo * 1024 + (512 + H.len) := rfl
     rw [e] at hk
     unfold krank at hk
-    have hH : H = R := h3 rfl
-    subst hH
     show a < H.lo ∨ (H.lo = a ∧ req < H.len)
-    omega
+    have hle : a ≤ H.lo := addr_lt_of_rank hk (by omega)
+    rcases Nat.lt_or_eq_of_le hle with h | h
+    · exact Or.inl h
+    · right
+      rw [h] at hk
+      exact ⟨h.symm, by omega⟩
+  · have e := hM.grank hm
+    rw [e] at hk
+    unfold krank at hk
+    left
+    show a < U.lo
+    rw [hlo]
+    exact addr_lt_of_rank' hk (Nat.le_add_right _ _)
 
 /-- **the lookup theorem, abstract form**: the predecessor of `(a, req)` in the squashed table
 carries mask length and location of the innermost range containing `a` that is no longer than `req` -/
-theorem sweep_lookup {F : List Rng} (hF : RngWF F) (hM : RngMono F) {GO : List (GEv × Rng)}
+theorem sweep_lookup {F : List Rng} (hF : RngWF F) (hW : RngMonoW F) {M : List GEv} (hM : MarkWF F M)
+    {GO : List (GEv × Rng)}
     (hsorted : GO.Pairwise fun x y => grank x.1 < grank y.1)
-    (hmem : ∀ gh ∈ GO, gh.1.r ∈ F ∧ IsHead F (grank gh.1) gh.2 ∧ (gh.1.kind = .start → gh.2 = gh.1.r) ∧
-      (gh.1.kind = .stop → gh.1.r.hi ≠ TOP))
+    (hmem : ∀ gh ∈ GO, OutOK F M gh)
     (hall : ∀ R ∈ F, (⟨R, .start⟩ : GEv) ∈ GO.map Prod.fst ∧
       (R.hi ≠ TOP → (⟨R, .stop⟩ : GEv) ∈ GO.map Prod.fst))
     {a req : Nat} (ha : a < TOP) (hreq : req < 256)
@@ -333,7 +537,7 @@ theorem sweep_lookup {F : List Rng} (hF : RngWF F) (hM : RngMono F) {GO : List (
       · rw [h]; exact Or.inl (Nat.le_refl _)
       · exact Or.inr (hpost y h)
   have hHead : IsHead F (krank a req) x.2 := by
-    refine isHead_of_no_event ?_ ?_ hxf.2.1
+    refine isHead_of_no_event ?_ ?_ hxf.1
     · intro R hR
       constructor
       · intro h; exact Nat.le_trans h hxk
@@ -351,12 +555,13 @@ theorem sweep_lookup {F : List Rng} (hF : RngWF F) (hM : RngMono F) {GO : List (
   have hInner := inner_of_isHead hF ha hreq hA hHead
   refine ⟨x.2, hInner, ?_⟩
   -- the point emitted for x
-  have hpf := outPt_facts hF hxf
+  have hpf := outPt_facts hF hM hxf
   have hpip : (outPt x).ip ≤ a := by
-    have := outPt_ip_le hF hxf.1
+    have := outPt_ip_le (hxf.len_le hF hM)
     unfold krank at hxk
     show x.1.pt.ip ≤ a
-    omega
+    have h512 : 512 + req < 1024 := by omega
+    exact ip_le_of_rank this.1 hxk (Nat.add_lt_add_left h512 _)
   have hpml : (outPt x).maskLen ≤ req := hInner.2.2.2.1
   -- it is not replaced by its successor
   have hnorep : ∀ q, (post.map outPt).head? = some q →
@@ -368,14 +573,14 @@ theorem sweep_lookup {F : List Rng} (hF : RngWF F) (hM : RngMono F) {GO : List (
       simp only [List.map_cons, List.head?_cons, Option.some.injEq] at hq
       subst hq
       have hy : y ∈ GO := by rw [hGO]; simp
-      have := after_krank hF hreq (hmem y hy) (hpost y List.mem_cons_self)
+      have := after_krank hF hM hreq (hmem y hy) (hpost y List.mem_cons_self)
       omega
   have hO : GO.map outPt = pre.map outPt ++ outPt x :: post.map outPt := by
     rw [hGO, List.map_append, List.map_cons]
   obtain ⟨T1, hT1⟩ := squash_snoc_last (pre.map outPt) (outPt x)
   have hT : squash [] (GO.map outPt) = T1 ++ outPt x :: squash [] (post.map outPt) := by
     rw [hO, squash_split _ _ _ hnorep, hT1, List.append_assoc]; rfl
-  have hsortedT := table_sorted hF hM hsorted hmem
+  have hsortedT := table_sorted hF hW hM hsorted hmem
   have hlk : lookup (squash [] (GO.map outPt)) a req = some (outPt x) := by
     rw [hT] at hsortedT ⊢
     apply lookup_sorted_split _ _ _ _ _ hsortedT
@@ -388,8 +593,8 @@ theorem sweep_lookup {F : List Rng} (hF : RngWF F) (hM : RngMono F) {GO : List (
       · cases h
       · obtain ⟨y, hy, rfl⟩ := List.mem_map.1 h
         have hyG : y ∈ GO := by rw [hGO]; simp [hy]
-        have hqf := outPt_facts hF (hmem y hyG)
-        have := after_krank hF hreq (hmem y hyG) (hpost y hy)
+        have hqf := outPt_facts hF hM (hmem y hyG)
+        have := after_krank hF hM hreq (hmem y hyG) (hpost y hy)
         rw [pkey_eq hqf.2.2.1 (by omega)]
         unfold keyLe keyLt
         simp only [Bool.not_eq_false', decide_eq_true_iff]
